@@ -169,7 +169,8 @@ def main(tier):
         units_of = {}
         for row in proj["rows"]:
             units_of.setdefault(row["qt"], []).append(row["unit"])
-        fvals = [FractionValue(2, Fraction(1, 2)), FractionValue(0, Fraction(3, 4)), FractionValue(-1, Fraction(-1, 4)), FractionValue(7, Fraction(5, 8))]
+        fvals = [FractionValue(2, Fraction(1, 2)), FractionValue(0, Fraction(3, 4)), FractionValue(-1, Fraction(-1, 4)), FractionValue(7, Fraction(5, 8)), FractionValue(0, Fraction(-1, 2)),
+                 FractionValue(3)]
         for qt, us in units_of.items():
             cat = db.GetDefaultCategory(us[0])
             if not cat or qt in ("Unknown",):
@@ -189,8 +190,14 @@ def main(tier):
             pairs = [(a, b) for a in us for b in us if a != b]
             if len(pairs) > (400 if thorough else 14):
                 pairs = rng.sample(pairs, 400 if thorough else 14)
+            # pairs that differ by an offset get every amount of the pool (a zero whole part, a negative fraction, ...), the others one
+            work = []
             for u, v in pairs:
-                fv = fvals[(len(events) + len(u)) % len(fvals)]
+                if db.Convert(qt, u, v, 0.0) != 0.0:
+                    work += [(u, v, f_) for f_ in fvals]
+                else:
+                    work.append((u, v, fvals[(len(work) + len(u)) % len(fvals)]))
+            for u, v, fv in work:
                 fs = FractionScalar(cat, value=fv, unit=u)
                 sc = Scalar(cat, float(fv), u)
                 o = P.outcome(lambda: fs.GetValue(v))
